@@ -121,7 +121,8 @@ def gen(rng, n):
 
 
 def project(case, outs):
-    return S.project(outs, TAGS)
+    # the per-datagram probes (record 18) count as probes here: every state change is then ONE model step
+    return [([8] + r[1:]) if r[0] == 18 else r for r in S.project(outs, TAGS | {18})]
 
 
 def _remote_changes(outs):
